@@ -226,6 +226,9 @@ def make_shims(world):
         except AbstractError:
             raise
         if getattr(W, "allclose_mode", None) == "record":
+            ff = getattr(W, "allclose_false_for", None)
+            if ff is not None and ff(Aa, Bb):
+                return Arr((), [False], "bool")
             return Arr((), [True], "bool")
         if Aa.elems is None or Bb.elems is None:
             return Arr((), [Poly.fn("allclose_unknown")], "bool")
